@@ -102,9 +102,10 @@ P["C15"] = {
     "design_ref": "DESIGN.md §8 C15, Appendix B", "assumptions": TIERA_ASSUME + [
         "a cancellation landing in the engine's own straight-line code between two environment calls is indistinguishable from one landing in the adjacent call",
         "the context reports context.Canceled or context.DeadlineExceeded (both enumerated)"],
-    "bounds": "Tier A: n <= 3 rules, K <= 3 firings; the context may be (or become) cancelled before the call and inside every condition, action and listener callback",
+    "bounds": "Tier A: n <= 3 rules, K <= 3 firings; the context may be (or become) cancelled before the call and inside every condition, action and listener callback; also histories of 2 calls (Execute / ExecuteWithContext with a fresh, possibly pre-cancelled, context / FetchMatchingRules) on ONE engine and instance, n <= 2, K <= 1 per call",
     "outside": "runs longer than K; contexts whose Err() is not monotone",
-    "runs": [tierA(2, 2, fCancel, QT), tierA(2, 2, fCancel | fRetract, QT), tierA(3, 1, fCancel, Q), tierA(3, 2, fCancel, T), tierA(2, 3, fCancel, T), tierA(2, 2, fCancel | fErr | fFlag, T), tierA(2, 2, fCancel | fRetract | fListen, T)]}
+    "runs": [tierA(2, 2, fCancel, QT), tierA(2, 2, fCancel | fRetract, QT), tierA(3, 1, fCancel, Q), tierA(3, 2, fCancel, T), tierA(2, 3, fCancel, T), tierA(2, 2, fCancel | fErr | fFlag, T), tierA(2, 2, fCancel | fRetract | fListen, T),
+             dict(histA(2, 1, 2, fCancel, QT), entry="VerifTierAHistoryCtx", name="histActx-n2-k1-c2-cancel")]}
 P["C08"] = {
     "design_ref": "DESIGN.md §8 C08, Appendix B", "assumptions": TIERA_ASSUME,
     "bounds": "Tier A: histories of <= 3 calls (Execute, ExecuteWithContext with a cancellable context, FetchMatchingRules) on one instance, n <= 3 rules, K <= 2 firings per call; every way of ending arises from the stubs",
